@@ -74,9 +74,12 @@ def stream_warc(ctx, seqs):
                 toks += [enc(e['method']), enc(e['version']), 'T' if e['eof'] else 'F', enc(data),
                          '-' if not H.sched_of(x.calls) else '.'.join('%x' % s for s in H.sched_of(x.calls)),
                          ','.join(('o' + enc(v)) if k == 'ok' else ('e' + v) for k, v in x.declog) or '~']
-                fl = [('Host', 'h')] + list(e.get('req_fields', []))
+                # field order of the real request: caller's fields, Content-Length (set with the
+                # body), then the Host that prepare_for_send adds when the request is written
+                fl = list(e.get('req_fields', []))
                 if e.get('req_body') is not None:
                     fl.append(('Content-Length', str(len(e['req_body']))))
+                fl.append(('Host', 'h'))
                 flat = []
                 for n, v in fl:
                     flat += [enc(n), enc(v)]
